@@ -812,7 +812,9 @@ fn big_program(mode: Mode, n: usize) -> NotifScenario {
 fn deep_stall_program() -> NotifScenario {
     let mut program = Vec::new();
     let mut seq = 1u16;
-    for _ in 0..66 {
+    // the channel's capacity (4096 in the pinned tree, taken from the library) plus two bursts
+    let bursts = litep2p::verif::DEFAULT_CHANNEL_SIZE / 64 + 2;
+    for _ in 0..bursts {
         let items: Vec<(u16, usize)> = (0..64).map(|_| {
             let s = seq;
             seq += 1;
